@@ -560,6 +560,11 @@ fn check_type_relation<T: TypeLookup>(
                 receive: receive2,
             },
         ) => {
+            // Record the coinductive hypothesis (as the union arms do) so that a recursive
+            // function type reached again through its own cycle terminates at the assumption
+            // check above instead of recursing without bound.
+            assumptions.insert(key);
+
             let already_on_stack = type_stack.contains(&pattern_id);
             if !already_on_stack {
                 type_stack.push(pattern_id);
@@ -575,6 +580,10 @@ fn check_type_relation<T: TypeLookup>(
 
             if !already_on_stack {
                 type_stack.pop();
+            }
+            // A refuted hypothesis must not be taken for granted later in the same query.
+            if !result {
+                assumptions.remove(&key);
             }
             result
         }
